@@ -395,7 +395,27 @@ Definition fixed (d : N -> devices) (w : N) : config :=
   {| devs := d; webui := w; sel_last := true; poll_checks_user := true; totp_monotone := true;
      chal_expiry := true; chal_delete_wa := true |}.
 
-(* ---- correspondence: per-step (user, level) of the cookie the server emitted ---- *)
+(* ---- correspondence: per step, did the handler answer with success, and the (user, level) of
+        the cookie the server emitted.  Success of an operation that emits no cookie shows in the
+        state: a new transaction / challenge / OTP (fresh) or a new token. ---- *)
+Definition changed (s s' : st) : bool :=
+  negb (N.eqb (fresh s) (fresh s')) || negb (Nat.eqb (length (tokens s)) (length (tokens s'))).
+
+Definition step_obs (k : config) (s : st) (o : op) : st * (bool * option cookie) :=
+  let (s', out) := step k s o in
+  let ok := match o with
+            | Logout _ | Approve _ | Tick _ => true
+            | _ => (match out with Some _ => true | None => false end) || changed s s'
+            end in
+  (s', (ok, out)).
+
+Fixpoint run_obs (k : config) (s : st) (ops : list op) : list (bool * option cookie) :=
+  match ops with
+  | [] => []
+  | o :: r => let (s1, ob) := step_obs k s o in ob :: run_obs k s1 r
+  end.
+
+(* ---- per-step (user, level) of the cookie the server emitted ---- *)
 Definition out_eqb (m : option cookie) (o : option (N * N)) : bool :=
   match m, o with
   | None, None => true
@@ -406,6 +426,13 @@ Definition out_eqb (m : option cookie) (o : option (N * N)) : bool :=
 Fixpoint outs_agree (ms : list (option cookie)) (os : list (option (N * N))) (i : nat) : list nat :=
   match ms, os with
   | m :: mr, o :: or => (if out_eqb m o then [] else [i]) ++ outs_agree mr or (S i)
+  | [], [] => []
+  | _, _ => [i]
+  end.
+
+Fixpoint obs_agree (ms : list (bool * option cookie)) (os : list (bool * option (N * N))) (i : nat) : list nat :=
+  match ms, os with
+  | (mok, m) :: mr, (ok, o) :: or => (if Bool.eqb mok ok && out_eqb m o then [] else [i]) ++ obs_agree mr or (S i)
   | [], [] => []
   | _, _ => [i]
   end.
